@@ -128,6 +128,43 @@ theorem elementwise_ndarray (xs : List α) (u : PyVal α) (hu : u.WF) (_hu0 : u.
     rw [h, f2 ⟨.num x, by simp, by simpa using fun h' => hd h'.symm⟩]
     rfl
 
+/-- **Object-dtype arrays** (any dimension ≥ 1; rows of a 2-D object array are object arrays again). They are NEVER handed back
+    untouched: the array converts iff every element converts (same order, nesting preserved) and fails with a failing element's
+    exception; for an object array of scalars every element becomes `si / u.si` when all elements have the dimension of the
+    target `u` — whatever `u` is, including `1`, `None`/`pq.dimensionless` and scaled ratios such as cm/m — and one element of
+    another dimension makes the call raise ValueError (so `[1 m, 2 km]` against `None` is refused, `[3 cm/m, 250 mm/m]` gives
+    `[0.03, 0.25]`). -/
+theorem elementwise_object_array (u : PyVal α) (hu : u.WF) (_hu0 : u.si ≠ 0) :
+    (∀ (l : List (Val α)) r, toUnitless (.objarray l) u = .ok r ↔
+      ∃ rs, r = .list rs ∧ List.Forall₂ (fun v x => toUnitless v u = .ok x) l rs) ∧
+    (∀ (l : List (PyVal α)), (∀ a ∈ l, a.WF) →
+      ((∀ a ∈ l, a.dims = u.dims) →
+        toUnitless (.objarray (l.map Val.atom)) u = .ok (.list (l.map fun a => Res.num (a.si / u.si)))) ∧
+      ((∃ a ∈ l, a.dims ≠ u.dims) → toUnitless (.objarray (l.map Val.atom)) u = .error .valueError)) :=
+  ⟨toUnitless_objarray_ok_iff u, fun l hl => toUnitless_objarray_atoms l u hl hu⟩
+
+/-- **0-d arrays** (after fix d893461). A zero-dimensional array — numeric, or object-dtype holding a quantity — is converted exactly
+    like the scalar it holds: the same number for a compatible target (`x·factor ratio`), the same ValueError for an
+    incompatible one.  (A numeric 0-d array holds a plain number: hypothesis `hnum`.) -/
+theorem elementwise_zero_dimensional_array (isObject : Bool) (a u : PyVal α) (ha : a.WF) (hu : u.WF) (_hu0 : u.si ≠ 0)
+    (hnum : isObject = false → ∃ x, a = .num x) :
+    toUnitless (.zerod isObject a) u = (toUnitlessScalar a u).map Res.num ∧
+    (a.dims = u.dims → toUnitless (.zerod isObject a) u = .ok (.num (a.si / u.si))) ∧
+    (a.dims ≠ u.dims → toUnitless (.zerod isObject a) u = .error .valueError) := by
+  have h := toUnitless_zerod isObject a u ha hu hnum
+  refine ⟨h, ?_, ?_⟩
+  · intro hd; rw [h, (toUnitlessScalar_ok_iff ha hu _).mpr ⟨hd, rfl⟩]; rfl
+  · intro hd; rw [h, (toUnitlessScalar_error_iff ha hu _).mpr ⟨hd, rfl⟩]; rfl
+
+/-- the seeded inputs: an object array of scaled ratios against `pq.dimensionless` is converted (0.03, 0.25), one of lengths is refused -/
+example :
+    let dl : PyVal ℚ := .qty Quantity.dimensionless
+    (match toUnitless (.objarray [.atom (.qty ⟨3, ⟨1/100, Dims.zero⟩⟩), .atom (.qty ⟨250, ⟨1/1000, Dims.zero⟩⟩)]) dl with
+      | .ok (.list [.num x, .num y]) => some (x, y) | _ => none) = some (3/100, 1/4) ∧
+    (match toUnitless (.objarray [.atom (.qty ⟨1, ⟨1, Dims.basis 0⟩⟩), .atom (.qty ⟨2, ⟨1000, Dims.basis 0⟩⟩)]) dl with
+      | .error .valueError => true | _ => false) = true := by
+  decide +kernel
+
 /-- the input on which the pinned code used to return the array unconverted (`to_unitless(np.array([790.]), cm/m)`): now 79000,
     as for the scalar and the list -/
 example :
